@@ -119,6 +119,10 @@ def run(ctx):
     ctx.lane("M2", events=len(events), rejected=len([b for b in bad if b[0] >= 0]))
     for e in events[len(rand_events):len(rand_events) + 2]:
         ctx.sample(dict(lane="M2", event={k: e[k] for k in ("op", "A", "x", "mo", "start", "end", "sp", "st", "y")}))
+    if not ctx.quick:
+        from .. import suite
+        suite.suite_lane(ctx, ["tests/test_ersatz.py", "tests/test_marginalize.py", "tests/test_space.py"],
+                         ["ersatz.substitute", "ersatz.insert", "ersatz.delete", "ersatz.multisubstitute", "ersatz.randomize"], clauses=("tensor",))
     ctx.assumptions += [
         "one-hot tensors are abstracted to symbol sequences by harness/impl/base.decode (total: anything else is INVALID)",
         "digest (CRC32 of bytes, dtype, shape) equality is taken as 'tensor not modified'",
